@@ -1,5 +1,165 @@
-"""C07 final-state oracle (filled in below)."""
+"""C07 final-state oracle: build-file restraints hold for every generated residue they
+select.  Reads the structured build spec of the job (the generator's own record of the
+build-file text) and the final residue positions; predicates are written from the
+property text, independently of polyply's implementation."""
+import math
+
+import numpy as np
+
+
+def _sel_molecules(top, block):
+    return [i for i, m in enumerate(top.molecules) if m.mol_name == block["mol"] and block["from"] <= i < block["to"]]
+
+
+def _sel_nodes(mol, item):
+    return [n for n in mol.nodes if mol.nodes[n]["resname"] == item["resname"]
+            and item["start"] <= mol.nodes[n]["resid"] < item["stop"]]
+
+
+def geom_ok(kind, inout, p, c, par):
+    d = np.asarray(p, dtype=float) - np.asarray(c, dtype=float)
+    eps = 1e-9
+    if kind == "sphere":
+        r = np.linalg.norm(d)
+        return r <= par[0] + eps if inout == "in" else r >= par[0] - eps
+    if kind == "cylinder":
+        rad = np.linalg.norm(d[:2])
+        inside = rad <= par[0] + eps and abs(d[2]) <= par[1] + eps
+        strictly_inside = rad < par[0] - eps and abs(d[2]) < par[1] - eps
+        return inside if inout == "in" else not strictly_inside
+    if kind == "rectangle":
+        inside = all(abs(d[k]) <= par[k] + eps for k in range(3))
+        strictly_inside = all(abs(d[k]) < par[k] - eps for k in range(3))
+        return inside if inout == "in" else not strictly_inside
+    raise ValueError(kind)
+
+
+def _min_image(d, box):
+    return d - box * np.round(d / box)
+
+
+def _avg_pair_size(ctx, top, ti):
+    """mean pair size over the growth-order edges of molecule ti"""
+    mol = top.molecules[ti]
+    edges = list(mol.search_tree.edges)
+    sizes = []
+    for a, b in edges:
+        sa = float(top.volumes[mol.nodes[a].get("template", mol.nodes[a]["resname"])])
+        sb = float(top.volumes[mol.nodes[b].get("template", mol.nodes[b]["resname"])])
+        sizes.append(0.5 * (sa + sb))
+    return (sum(sizes) / len(sizes) if sizes else 0.0), sum(sizes)
 
 
 def check_c07(ctx, job, top):
-    return
+    blocks = job.get("build_spec") or []
+    box = np.array(top.box, dtype=float) if top.box is not None else None
+    t_of = {}
+    for m, mol in enumerate(ctx.eng_molecules or []):
+        for ti, tm in enumerate(top.molecules):
+            if tm is mol:
+                t_of[ti] = m
+    generated = set()
+    for (m, n) in ctx.added:
+        generated.add((m, n))
+    sf = job["opts"].get("step_fudge", 1.0)
+    for block in blocks:
+        for ti in _sel_molecules(top, block):
+            mol = top.molecules[ti]
+            m = t_of.get(ti)
+            if m is None or m in ctx.ignored_mols:
+                continue
+            for it in block["items"]:
+                kind = it["kind"]
+                if kind in ("sphere", "cylinder", "rectangle"):
+                    for n in _sel_nodes(mol, it):
+                        if (m, n) not in generated:
+                            continue
+                        ctx.probe("restraint_selects_generated_residue")
+                        p = ctx.model.pos[(m, n)]
+                        if not geom_ok(kind, it["inout"], p, it["center"], it["params"]):
+                            ctx.fail("C07", f"geom.{kind}.{it['inout']}",
+                                     f"residue {mol.nodes[n]['resid']} of molecule {ti} at {np.round(p, 6).tolist()} violates "
+                                     f"{it['inout']} {kind} centre {it['center']} parameters {it['params']}")
+                elif kind == "rw":
+                    normal = np.array(it["normal"], dtype=float)
+                    for n in _sel_nodes(mol, it):
+                        if (m, n) not in generated or (m, n) not in ctx.grown_from:
+                            continue
+                        prev = ctx.grown_from[(m, n)]
+                        p, q = ctx.model.pos[(m, n)], ctx.model.pos.get((m, prev))
+                        if q is None:
+                            continue
+                        tcur = ctx.model.node_type[(m, n)]
+                        tprev = ctx.model.node_type[(m, prev)]
+                        step = sf * 0.5 * (ctx.model.sizes[tcur] + ctx.model.sizes[tprev])
+                        if 2 * step >= float(np.min(box)):
+                            continue      # step direction is ambiguous under the minimum image convention
+                        d = p - q
+                        v = _min_image(d, box)
+                        wrapped = bool(np.linalg.norm(d - v) > 1e-9)
+                        ctx.probe("direction_restricted_step")
+                        if wrapped:
+                            ctx.probe("direction_restricted_step_wrapped")
+                        dot = float(np.dot(normal, v))
+                        cosang = dot / (np.linalg.norm(normal) * np.linalg.norm(v))
+                        ang = math.degrees(math.acos(max(-1.0, min(1.0, cosang))))
+                        ok = (np.sign(dot) == np.sign(it["angle"])) and ang <= abs(it["angle"]) + 1e-6
+                        if not ok:
+                            ctx.fail("C07", "direction",
+                                     f"residue {mol.nodes[n]['resid']} of molecule {ti}: step from its predecessor makes "
+                                     f"{ang:.2f} deg with normal {it['normal']} (limit {it['angle']})",
+                                     step_wrapped=wrapped)
+                elif kind == "dist":
+                    a, b = it["a"], it["b"]
+                    if (m, a) not in ctx.model.pos or (m, b) not in ctx.model.pos:
+                        continue
+                    if (m, a) not in generated and (m, b) not in generated:
+                        continue
+                    avg, _ = _avg_pair_size(ctx, top, ti)
+                    dist = float(np.linalg.norm(_min_image(ctx.model.pos[(m, a)] - ctx.model.pos[(m, b)], box)))
+                    ctx.probe("distance_restraint_checked")
+                    if not (it["d"] - it["tol"] - 1e-9 <= dist <= it["d"] + it["tol"] + avg + 1e-9):
+                        ctx.fail("C07", "distance", f"molecule {ti}: residues {a},{b} end {dist:.4f} nm apart, restraint "
+                                                    f"{it['d']} +- {it['tol']} (+ mean pair size {avg:.4f})")
+                elif kind == "pers":
+                    a, b = it["start"], it["stop"]
+                    if (m, a) not in ctx.model.pos or (m, b) not in ctx.model.pos or (m, b) not in generated:
+                        continue
+                    restr = mol.nodes[b].get("distance_restraints") or []
+                    lows = [lo for (ref, up, lo) in restr if ref == a]
+                    if not lows:
+                        ctx.fail("C07", "persistence.range", f"molecule {ti}: no end-to-end distance was sampled")
+                        continue
+                    d = float(lows[0])
+                    avg, contour = _avg_pair_size(ctx, top, ti)
+                    ctx.probe("persistence_sampled")
+                    if not (avg - 1e-9 <= d <= contour + 1e-9):
+                        ctx.fail("C07", "persistence.range", f"molecule {ti}: sampled end-to-end distance {d:.4f} outside "
+                                                             f"[one step {avg:.4f}, contour {contour:.4f}]")
+                    dist = float(np.linalg.norm(_min_image(ctx.model.pos[(m, a)] - ctx.model.pos[(m, b)], box)))
+                    if not (d - 1e-9 <= dist <= d + avg + 1e-9):
+                        ctx.fail("C07", "persistence.built", f"molecule {ti}: built end-to-end distance {dist:.4f}, sampled "
+                                                             f"{d:.4f} (+ mean pair size {avg:.4f})")
+    # cycles: d = 0 between the two residues joined by the closing edge
+    cyc = job["opts"].get("cycles") or []
+    tol = job["opts"].get("cycle_tol", 0.0)
+    for ti, mol in enumerate(top.molecules):
+        if mol.mol_name not in cyc:
+            continue
+        m = t_of.get(ti)
+        if m is None:
+            continue
+        tree_edges = {frozenset(e) for e in mol.search_tree.edges}
+        closing = [e for e in mol.edges if frozenset(e) not in tree_edges]
+        if len(closing) != 1:
+            continue
+        a, b = closing[0]
+        if (m, a) not in generated and (m, b) not in generated:
+            continue
+        avg, _ = _avg_pair_size(ctx, top, ti)
+        dist = float(np.linalg.norm(_min_image(ctx.model.pos[(m, a)] - ctx.model.pos[(m, b)], box)))
+        ctx.probe("cycle_checked")
+        if dist > tol + avg + 1e-9:
+            ctx.fail("C07", "cycle", f"ring molecule {ti} ({mol.number_of_nodes()} residues) declared cyclic: residues {a},{b} "
+                                     f"joined by the closing edge end {dist:.4f} nm apart (> tol {tol} + mean pair size {avg:.4f})",
+                     ring_size=mol.number_of_nodes())
